@@ -530,4 +530,25 @@ def medianTime (ts : List Int) : Int :=
   let w := ts.take 11
   (w.foldr insertSorted []).getD (w.length / 2) 0
 
+/-- `CalcPastMedianTime(node.Ancestor(height))` on the chain's timestamps (index = height) -/
+def mtpAt (times : List Int) (height : Nat) : Int := medianTime (times.take (height + 1)).reverse
+
+/-- what `calcSequenceLock` reads for one input: the view's height for the spent output (`none` =
+    not in the view, 0x7fffffff = in the mempool → next block), and the median time past of the
+    block BEFORE the one that contains it (`prevInputHeight = max(inputHeight-1, 0)`).
+    `times` are the timestamps of the chain ending in `node` (so `node.height = times.length - 1`). -/
+def lockInputOf (times : List Int) (seq : Nat) (height : Option Int) : LockInput :=
+  let nodeHeight : Int := (times.length : Int) - 1
+  let h : Int := match height with
+    | some h => if h = 0x7fffffff then nodeHeight + 1 else h
+    | none => 0
+  let prev := if h - 1 < 0 then 0 else h - 1
+  ⟨seq, height, mtpAt times prev.toNat⟩
+
+/-- `BlockChain.calcSequenceLock(node, tx, view, mempool)` from the chain's timestamps -/
+def calcSequenceLockChain (csvActive : Bool) (version : Nat) (isCoinBase : Bool) (times : List Int)
+    (ins : List (Nat × Option Int)) : LockResult :=
+  calcSequenceLock csvActive version isCoinBase ((times.length : Int) - 1)
+    (ins.map (fun p => lockInputOf times p.1 p.2))
+
 end BV.C13
